@@ -36,6 +36,11 @@ func (w *World) verifyFunction(fn *ssa.Function, blk *Block, opts *Options) *Exe
 	st.assume(lt("0", st.alloc))
 	for _, g := range w.globalOrder() {
 		st.assume(lt(w.globalRef(g), st.alloc))
+		// package-level variables that are plain cells are never written after initialisation
+		// (any store would need ownership, and read-only locations are never owned)
+		if et := derefType(g.Type()); !isStructType(et) && !isArrayType(et) {
+			st.assume("(RO " + w.globalRef(g) + ")")
+		}
 	}
 	for _, f := range w.funcConstOrder {
 		st.assume(lt(f, st.alloc))
